@@ -19,9 +19,26 @@ def sample_payload(kind, tag):
     """one record of the given kind at the given tag with a non-default value"""
     if kind in ("KString", "KBytes"):
         return varint(tag * 8 + 2) + varint(2) + b"hi"
-    if kind in ("KMsg", "KMapMsg", "KMapU64"):
+    if kind == "KMsg":
+        return varint(tag * 8 + 2) + varint(0)            # an empty embedded message is valid for every message type
+    if kind in ("KMapMsg", "KMapU64"):
         return None
     return varint(tag * 8) + varint(1)
+
+
+def missing_rows(gen, base, base_name):
+    """python re-statement of Codec.schema_covers, returning what is lost"""
+    rows = []
+    for fq, fields in base.items():
+        if fq not in gen:
+            rows.append({"message": fq, "what": "message %s of %s is no longer bound" % (fq, base_name)})
+            continue
+        tags = {f[0] for f in gen[fq]}
+        for (tag, kind, label, ref, name) in fields:
+            if tag not in tags:
+                rows.append({"message": fq, "field": name, "tag": tag, "kind": kind,
+                             "what": "field %s.%s (tag %d, %s %s) of %s is no longer decoded by the bindings" % (fq, name, tag, kind, label, base_name)})
+    return rows
 
 
 def compat_rows(gen, other, other_name):
@@ -74,6 +91,16 @@ def search(model, b):
         for r in compat_rows(other, gen, "the bindings"):
             if not any(x.get("row", {}).get("message") == r["message"] and x.get("row", {}).get("field") == r["field"] for x in out):
                 out.append({"kind": "schema", "what": r["what"] + " (described from %s)" % nm, "row": r, "ops": []})
+    for r in missing_rows(gen, base, "the pinned baseline"):
+        f = {"kind": "schema", "what": r["what"], "row": r, "ops": []}
+        if "tag" in r:
+            pl = sample_payload(r["kind"], r["tag"])
+            if pl is not None:
+                f["ops"] = ["cfg proto 0", "prt %s x%s" % (r["message"], pl.hex())]
+        out.append(f)
+    for a in model.get("stats", {}).get("oneof_anomalies", []):
+        out.append({"kind": "schema", "ops": [], "row": a,
+                    "what": "oneof %s.%s: the struct dispatches tags %r, the enum declares %r" % (a["message"], a["oneof"], a["tags"], a["variant_tags"])})
     # run the witnesses on the real bindings
     for f in out:
         if f["ops"] and b is not None and "miniwasm" in b.exe:
